@@ -1559,6 +1559,9 @@ class Stage:
         cat = vcat if transpose else hcat
         res = cat(sub_expr)
         time = stage._method.control_grid
+        if not include_first or not include_last:
+            # Keep one time entry per sampled point
+            time = ca.vec(time)[(0 if include_first else 1):(None if include_last else -1)]
         return time, res
 
     def _grid_integrator(self, stage, expr, grid, include_first=True, include_last=True):
